@@ -79,7 +79,7 @@ func Engine() bool { return false }
 // replayed separately with the class NOT excluded.
 func Known(class string) bool {
 	for _, k := range strings.Split(os.Getenv("VERIF_KNOWN"), ",") {
-		if k == class {
+		if k == class || (strings.HasSuffix(k, "*") && strings.HasPrefix(class, k[:len(k)-1])) {
 			return true
 		}
 	}
